@@ -442,6 +442,7 @@ func runC51(e *core.Env, s *c51Scenario) {
 	w.settle()
 	e.Logf("quiescent (late rpcs still uncommitted)")
 	w.checkDropped("first quiescence")
+	w.checkWatchKept()
 
 	// Fresh selections at quiescence must follow the latest route configuration.
 	q0 := len(w.rpcs)
@@ -580,6 +581,36 @@ func (w *world) checkDropped(when string) {
 	}
 }
 
+// checkWatchKept (at quiescence only): the cluster of an RPC that is selected
+// and not yet committed still has its cluster resource in the xDS
+// configuration handed to the channel with the latest push, i.e. the
+// dependency manager kept its watch. Between pushes the resource of a cluster
+// that only RPCs hold may be missing for a while (the dependency manager
+// re-fetches a cluster it had dropped before the resolver got round to
+// subscribing); that is not judged.
+func (w *world) checkWatchKept() {
+	e := w.e
+	if len(w.pushes) == 0 {
+		return
+	}
+	last := w.pushes[len(w.pushes)-1]
+	for _, rec := range w.rpcs {
+		if rec.cfg == nil || rec.commitSeq != 0 {
+			continue
+		}
+		x := rec.cluster
+		if !last.has(x) || contains(last.resolved, x) {
+			// (absence from the service config is cluster_kept_until_commit's business)
+			continue
+		}
+		name := "cluster_resource_kept_until_commit"
+		if w.revivedDead(x, last.idx) {
+			name = "dead_clusterinfo_revived_resource_dropped"
+		}
+		e.Violate(name, "rpc %d routed to %s (selected at seq %d on push %d) is uncommitted at quiescence: the latest push %d keeps %s in the service config but the xDS configuration handed to the channel with it has cluster resources only for %v (the cluster's watch was dropped)", rec.id, x, rec.retSeq, rec.push.idx, last.idx, x, last.resolved)
+	}
+}
+
 // checkFresh (convergence half of clause 4, at quiescence): a selection made
 // now follows the route configuration the server sent last.
 func (w *world) checkFresh(recs []*rpcRec) {
@@ -602,7 +633,6 @@ func (w *world) checkFresh(recs []*rpcRec) {
 func (w *world) checkHistory() {
 	e := w.e
 	removedWhile := map[int]bool{}
-	noRes := map[int]bool{}
 	for _, rec := range w.rpcs {
 		if rec.cfg == nil {
 			continue
@@ -640,14 +670,6 @@ func (w *world) checkHistory() {
 				}
 				e.Violate("cluster_kept_until_commit", "rpc %d routed to %s (selected at seq %d on push %d, %s): service config of push %d (seq %d, %s) has clusters %v", rec.id, x, rec.retSeq, rec.push.idx, commit, p.idx, p.seq, kind, p.children)
 				break
-			}
-			if !contains(p.resolved, x) && !noRes[rec.id] {
-				noRes[rec.id] = true
-				name := "cluster_resource_kept_until_commit"
-				if w.revivedDead(x, p.idx) {
-					name = "dead_clusterinfo_revived_resource_dropped"
-				}
-				e.Violate(name, "rpc %d routed to %s (selected at seq %d on push %d, uncommitted): push %d (seq %d) keeps %s in the service config but the xDS configuration handed to the channel with it has cluster resources only for %v (the cluster's watch was dropped)", rec.id, x, rec.retSeq, rec.push.idx, p.idx, p.seq, x, p.resolved)
 			}
 			if p.idx > rec.push.idx {
 				// was x gone from the route configuration the client knew?
